@@ -8,6 +8,7 @@ import sympy as sp
 
 from .. import terms as TM
 from ..absint import Interp, Unsupported
+from .common import public_functional
 from ..core import AnalysisError, Report, Repo
 from ..oracle import oracle_function, std_globals
 from ..schemas import O, P
@@ -47,25 +48,18 @@ def keyname(k: Any) -> str:
 
 
 def fields_read_by_quantise(repo: Repo) -> Set[str]:
-    mod = repo.module(FM)
-    cls = mod.need("FPFormat")
-    methods = {n.name: n for n in cls.body if isinstance(n, ast.FunctionDef)}
-    fields = {st.target.id for st in cls.body if isinstance(st, ast.AnnAssign) and isinstance(st.target, ast.Name)}
-    seen: Set[str] = set()
-    out: Set[str] = set()
-    work = ["quantise"]
-    while work:
-        m = work.pop()
-        if m in seen or m not in methods:
-            continue
-        seen.add(m)
-        for n in ast.walk(methods[m]):
-            if isinstance(n, ast.Attribute) and isinstance(n.value, ast.Name) and n.value.id == "self":
-                if n.attr in fields:
-                    out.add(n.attr)
-                elif n.attr in methods:
-                    work.append(n.attr)
-    return out
+    """The FPFormat fields whose value reaches FPFormat.quantise, found by evaluating quantise on
+    format objects whose field reads are recorded (stochastic and nearest rounding): every route
+    the code takes to a field -- helper methods, properties, dispatch tables -- is followed."""
+    it = Interp(repo)
+    read: Set[str] = set()
+    for rounding, sr in (("stochastic", SR), ("nearest", 0)):
+        fo = mkformat(it, rounding, sr)
+        for fld in list(fo.attrs):
+            fo.dyn[fld] = lambda fld=fld, fo=fo: (read.add(fld), fo.attrs[fld])[1]
+        it.data_syms = {}
+        it.call_function(it.class_attr(fo.cls, "quantise"), [fo, P("x", None)], {})
+    return read
 
 
 def check_per_format(report: Report, repo: Repo, rule: str) -> None:
@@ -146,7 +140,7 @@ def check(report: Report, repo: Repo) -> None:
     check_per_format(report, repo, "R1-straight-through")
 
     # ------------------------------------------------------------ R2 wrappers
-    opq = lambda f: isinstance(f, FuncV) and (f.module.rel == "unit_scaling/functional.py" or f.qualname in ("tuple_to_format", "format_to_tuple", "replace_node_with_function", "_replace_with_quantised", "apply_transform", "simulate_format"))
+    opq = lambda f: (public_functional(f)) or isinstance(f, FuncV) and (f.qualname in ("tuple_to_format", "format_to_tuple", "replace_node_with_function", "_replace_with_quantised", "apply_transform", "simulate_format"))
     it2 = Interp(repo, opaque=opq)
     rmap = it2.get_global(SF, "_replacement_map")
     if not isinstance(rmap, dict):
@@ -263,7 +257,8 @@ def check(report: Report, repo: Repo) -> None:
                 report.add("R4-splice", cons, None, f"{fname}: spliced arguments are not statically known")
                 continue
             try:
-                bound = rwq.bind(w, list(new_args), dict(new_kwargs))
+                w_sig = rwq.unwrap(w)  # the signature a caller sees (functools.wraps is followed)
+                bound = rwq.bind(w_sig if isinstance(w_sig, FuncV) else w, list(new_args), dict(new_kwargs))
             except Unsupported as ex:
                 report.add("R4-splice", cons, False, f"{fname}: the rewritten call does not bind to {w.qualname}{ast.unparse(w.node.args)!s:.80}: {ex}", f"args={fmt(tuple(new_args))} kwargs={fmt(new_kwargs)}", "a call that binds")
                 continue
